@@ -203,7 +203,12 @@ def subtype_rule(ctx, ki):
                     absent = any((t_ == 'act_smt' and lab == 'F') or (t_ == 'not act_smt' and lab == 'T') or (t_ == 'act_smt is None' and lab == 'T') or
                                  (t_ == 'act_smt is not None' and lab == 'F') for t_, lab in tests_)
                     mentioned = any(isinstance(x, ast.Name) and x.id == 'act_smt' for n, lab in p if n.kind == 'test' for x in ast.walk(n.ast))
-                    if mentioned and not absent:
+                    # only a callee that COMPLETES the statement (relates a subtype to it over R603 somewhere) owes it one; a callee that
+                    # merely hangs something else onto the statement it was given (parameter lists) does not
+                    completes = any(isinstance(c_, ast.Call) and call_attr(c_) == 'relate' and
+                                    any(isinstance(a_, ast.Name) and a_.id == 'act_smt' for a_ in c_.args) and
+                                    any(isinstance(a_, ast.Constant) and a_.value == 603 for a_ in c_.args) for c_ in ast.walk(fn))
+                    if mentioned and not absent and completes:
                         extra = 'act_smt'
                 created = _relates_per_creation(p, helper, sc, extra)
                 if not created:
